@@ -81,12 +81,16 @@ type evidence struct {
 	Violations  int            `json:"violations"`
 }
 
-func runCheck(prop, tier, repo, verif string, verbose, noReplay bool) int {
+func runCheck(prop, tier, repo, verif string, verbose, noReplay bool, evOut string) int {
 	start := time.Now()
 	seed, _ := strconv.Atoi(os.Getenv("VERIF_SEED"))
 	evPath := filepath.Join(verif, "evidence", prop+".json")
-	os.MkdirAll(filepath.Dir(evPath), 0755)
-	os.Remove(evPath)
+	if evOut != "" {
+		evPath = evOut
+	} else {
+		os.MkdirAll(filepath.Dir(evPath), 0755)
+		os.Remove(evPath)
+	}
 
 	engineFail := func(what string, err error) int {
 		rp := writeReplayFile(verif, prop, "engine#"+what, map[string]any{"obligation": "engine#" + what, "error": err.Error()})
